@@ -62,7 +62,7 @@ func (w *worker) runPath(maxDepth int) (outcome string) {
 	c.resetPath()
 	c.hchoices = nil
 	x := &Exec{c: c, prog: w.ld.prog, ld: w.ld, globals: map[*ssa.Global]*Value{}, fcount: map[*ssa.Function]int64{},
-		flagsOf: map[*Value]*FlagSetObj{}, params: w.spec.Params}
+		flagsOf: map[*Value]*FlagSetObj{}, params: w.spec.Params, extUsed: map[string]bool{}, stdInit: map[*ssa.Package]bool{}}
 	x.fs = x.newFS()
 	if c.st.nextID > 3_000_000 {
 		// keep memory bounded: fresh term store and solver (definitions are re-sent lazily)
